@@ -64,7 +64,6 @@ DEFAULT_OFF = {
     "str_lit_plus_lit",    # "a" + "b"
     "try",
     "list_elem_assign",
-    "forward_helper_call",
     "macro_effectful_arg", # abs/min/max are macros and a < b < c repeats b: an effectful helper call there runs twice
     "for_bound_mutated",   # range(expr) is re-evaluated on every iteration in C
     "unannotated_param",   # parameter types are only inferred from call sites that are assignments
@@ -334,7 +333,7 @@ class Gen:
         return out or [("s", "pass")]
 
     def stmt(self, depth, loop_depth, in_main):
-        kinds = ["assign"] * 4 + ["write"] * 5 + ["aug"] * 2 + ["sleep", "swap", "tuple", "pin", "led", "comment", "passs", "callstmt"]
+        kinds = ["assign"] * 4 + ["write"] * 5 + ["aug"] * 2 + ["sleep", "swap", "tuple", "tuple_dep", "pin", "led", "comment", "passs", "callstmt"]
         if depth < self.p.max_depth:
             kinds += ["if"] * 3 + ["for"] * 2 + ["while"] * 2
         if loop_depth > 0:
@@ -388,6 +387,26 @@ class Gen:
             return self.s_write(depth, loop_depth, in_main)
         self.feat("tuple_assign")
         return [("s", f"{a}, {b} = {self.expr(t1, 2)}, {self.expr(t2, 2)}")]
+
+    def s_tuple_dep(self, depth, loop_depth, in_main):
+        """tuple assignment whose right-hand elements read the targets at various expression depths (needs the temporaries)."""
+        t = self.choice(["int", "int", "float"])
+        nm = self.names(t, writable=True)
+        if len(nm) < 2:
+            return self.s_write(depth, loop_depth, in_main)
+        a = self.choice(nm)
+        b = self.choice([x for x in nm if x != a])
+        k = self.int_lit(1, 3) if t == "int" else self.choice(["0.5", "2.0"])
+        forms = [f"{a}, {b} = {b}, (({a} + {b}) + {k})", f"{a}, {b} = {b}, (({a} * {k}) - {b})", f"{a}, {b} = (({a} + {b}) * {k}), {a}",
+                 f"{a}, {b} = ({b} - ({a} + {k})), ({a} + ({b} + {k}))", f"{a}, {b} = {b}, (-({a} + {k}))"]
+        if t == "int":
+            forms.append(f"{a}, {b} = {b}, ({a} if ({a} + {k}) > {b} else ({b} - {a}))")
+        rest = [x for x in nm if x not in (a, b)]
+        if rest:
+            c = self.choice(rest)
+            forms.append(f"{a}, {b}, {c} = {b}, {c}, ({a} + ({b} * {k}))")
+        self.feat("tuple_dependent")
+        return [("s", self.choice(forms)), ("s", f"mon.write({a})"), ("s", f"mon.write({b})")]
 
     def s_write(self, depth, loop_depth, in_main):
         _, e = self.any_expr()
@@ -538,7 +557,7 @@ class Gen:
         elif t == "float":
             if self.has("srv"): c += ["srv.read()", "srv.read_us()"]
             if self.has("mot"): c += ["mot.get_speed()", "mot.get_applied_speed()"]
-            if self.has("us") and not (self.in_func and not self.p.on("helper_uses_late_helpers")): c.append("us.measure_distance()")
+            if self.has("us"): c.append("us.measure_distance()")
             if self.has("bz"): c += ["bz.get_frequency()", "bz.get_last_frequency()"]
         elif t == "bool":
             c.append("led.get_state()")
@@ -551,7 +570,7 @@ class Gen:
         return self.choice(c)
 
     def s_device(self, depth, loop_depth, in_main):
-        ks = [k for k in self.devs if self.has(k) and not (self.in_func and k in ("us", "lcd", "lci") and not self.p.on("helper_uses_late_helpers"))] + ["led"]
+        ks = [k for k in self.devs if self.has(k) and not (self.in_func and k in ("lcd", "lci") and not self.p.on("helper_uses_late_helpers"))] + ["led"]
         k = self.choice(ks)
         i = lambda d=1: self.e_int(d)
         f = lambda d=1: self.e_float(d)
@@ -649,6 +668,21 @@ class Gen:
         for n, t, v in decls:
             self.vars[n] = t
             nodes.append(("s", f"{n} = {v}"))
+        if self.chance(0.4):
+            # names first assigned inside a *top-level* compound statement (hoisted to globals), then used like any other variable
+            form = self.choice(["ifelse", "for", "while", "if_elif_else"])
+            v1, v2 = self.int_lit(), self.int_lit()
+            cond = self.choice(["i0 >= 0", "i0 < 0", "True", "1 > 2"])
+            if form == "ifelse":
+                nodes += [("b", f"if {cond}:", [("s", f"g0 = {v1}")]), ("b", "else:", [("s", f"g0 = {v2}")])]
+            elif form == "if_elif_else":
+                nodes += [("b", f"if {cond}:", [("s", f"g0 = {v1}")]), ("b", "elif i0 > 100:", [("s", f"g0 = {v2}")]), ("b", "else:", [("s", "g0 = 7")])]
+            elif form == "for":
+                nodes += [("b", "for k9 in range(2):", [("s", f"g0 = k9 + {v1}")])]
+            else:
+                nodes += [("s", "w0 = 1"), ("b", "while w0 > 0:", [("s", "w0 = w0 - 1"), ("s", f"g0 = {v1}")])]
+            self.vars["g0"] = "int"
+            self.feat("toplevel_block_first_assign")
         if self.chance(0.6):
             ln = self.d(st.integers(1, 4))
             t = self.choice(["list_int", "list_int", "list_float"])
